@@ -18,7 +18,7 @@ Definition w1_now := 472144 * HR + 168 * HR + 1.
 
 Theorem C14_index_outlived_by_shard_refuted :
   exists ps n es pt now,
-    let r := xrun false false (xworld0 ps n) (es ++ [XTick pt now now]) in
+    let r := xrun false false false (xworld0 ps n) (es ++ [XTick pt now now]) in
     exists s, In s (x_shards (fst r)) /\ xs_pt s = pt /\
               In (xs_ix s) (l_ixs (last (snd r) nolog)) /\            (* its index was deleted by this pass *)
               has_ix (x_ixs (fst r)) (xs_ix s) pt = false /\          (* and is gone from the node *)
@@ -34,13 +34,13 @@ Print Assumptions C14_index_outlived_by_shard_refuted.
 (* the same history under the repaired index-group choice: the 12h group gets a fresh index group, the pass deletes
    only the expired 1h shard and ITS index, and the 12h shard keeps its index *)
 Example C14_index_kept_when_repaired :
-  let r := xrun true false (xworld0 w1_pols 1) (w1_events ++ [XTick 0 w1_now w1_now]) in
+  let r := xrun true false false (xworld0 w1_pols 1) (w1_events ++ [XTick 0 w1_now w1_now]) in
   map xs_id (x_shards (fst r)) = [2] /\ map xi_id (x_ixs (fst r)) = [2] /\ l_ixs (last (snd r) nolog) = [1].
 Proof. vm_compute. auto. Qed.
 
 (* today's index-group choice breaks the invariant of XInv.v *)
 Theorem C14_index_cover_refuted :
-  exists ps n es, let c := x_cat (fst (xrun false false (xworld0 ps n) es)) in
+  exists ps n es, let c := x_cat (fst (xrun false false false (xworld0 ps n) es)) in
     exists sg s ig i, In sg (c_sgs c) /\ In s (sg_shards sg) /\ In ig (c_igs c) /\ In i (ig_ixs ig) /\ ci_id i = cs_ix s /\
                       ig_end ig < sg_end sg.
 Proof.
@@ -65,7 +65,7 @@ Definition w2_now := 472141 * HR + HR + 1.
 
 Theorem C14_prune_neighbour_refuted :
   exists ps n es pt now,
-    let r := xrun false false (xworld0 ps n) (es ++ [XTick pt now now]) in
+    let r := xrun false false false (xworld0 ps n) (es ++ [XTick pt now now]) in
     exists sg s, In sg (c_sgs (x_cat (fst r))) /\ In s (sg_shards sg) /\ cs_md s = true /\
                  ~ In (cs_id s) (l_shards (last (snd r) nolog)) /\                      (* the pass did not delete it *)
                  expired (pol_d (x_cat (fst r)) (sg_rp sg)) (sg_end sg) now = false /\  (* its group has not expired *)
@@ -82,6 +82,6 @@ Print Assumptions C14_prune_neighbour_refuted.
 
 (* the same history with the repaired pruning marks nothing but shard 5 *)
 Example C14_prune_exact_when_repaired :
-  let r := xrun false true (xworld0 w2_pols 2) (w2_events ++ [XTick 2 w2_now w2_now]) in
+  let r := xrun false true false (xworld0 w2_pols 2) (w2_events ++ [XTick 2 w2_now w2_now]) in
   flat_map (fun g => map cs_id (filter cs_md (sg_shards g))) (c_sgs (x_cat (fst r))) = [5].
 Proof. vm_compute. auto. Qed.
